@@ -151,7 +151,7 @@ func own(c *mon.Ctx, r *gen.Rand) {
 	if g := d.DecodeMaximumBitRate(); g != v || !d.IsMaximumBitrateDescriptor() {
 		c.Fail("decode:maximum-bitrate", fmt.Sprintf("DecodeMaximumBitRate(%x) = %d, encoded %d", body, g, v), wit{Case: "maximum_bitrate", Body: mon.Hex(body), Detail: fmt.Sprint(g)})
 	}
-	es := psi.NewPmtElementaryStream(0x1b, 0x100, []psi.PmtDescriptor{psi.NewPmtDescriptor(0x52, []byte{1}), d, psi.NewPmtDescriptor(0x0e, []byte{0xc0, 0, 1})})
+	es := psi.NewPmtElementaryStream(0x1b, 0x100, []psi.PmtDescriptor{psi.NewPmtDescriptor(0x52, []byte{1}), d, psi.NewPmtDescriptor(0x0a, []byte("eng\x00"))}) // one maximum bitrate descriptor: which of several would count is not stated
 	if g := es.MaxBitRate(); g != uint64(v)*50*8 {
 		c.Fail("decode:stream-max-bitrate", fmt.Sprintf("MaxBitRate() = %d, want %d x 50 x 8", g, v), wit{Case: "maximum_bitrate", Body: mon.Hex(body), Detail: fmt.Sprint(g)})
 	}
@@ -264,7 +264,7 @@ func own(c *mon.Ctx, r *gen.Rand) {
 	body = append(body, r.Bytes(r.Intn(5))...)
 	d = psi.NewPmtDescriptor(0xb0, body)
 	want := fmt.Sprintf("dvhe.%02d.%02d", prof, lvl)
-	if g := d.DecodeDolbyVisionCodec("hvc1"); g != want {
+	if g := d.DecodeDolbyVisionCodec(r.PickString([]string{"hvc1", "hvc1", "", "hev1.2.4.L153.B0", "avc1.640028", "avc3", "dvhe", "dvav.09.05", "mp4a"})); g != want {
 		c.Fail("decode:dolby-vision-codec", fmt.Sprintf("DecodeDolbyVisionCodec = %q, want %q", g, want), wit{Case: "dolby vision", Body: mon.Hex(body), Detail: g})
 	}
 	if c.Class(fmt.Sprintf("dv/profile=%d/level=%d", prof, lvl)) && c.WantSample() {
